@@ -206,6 +206,17 @@ def run_pair(ctx, p):
                               lambda: 'intersects() = %s, the lines meet at %s' % (core.short(pt, 200), X))
                 else:
                     ctx.ood('pairs')
+        elif conf == 'parallel_pts':
+            # the same segment translated: lines given by point pairs, parallel up to the rounding of the coordinate differences
+            Q1, t = P1 + D1, P2
+            L1, L2 = sm.Plucker.PQ(P1, Q1), sm.Plucker.PQ(P1 + t, Q1 + t)
+            m = mag(P1, Q1, P1 + t, Q1 + t)
+            dist = on_line(P1 + t, P1, D1)
+            got = float(L1.distance(L2))
+            ctx.judge('pairs', abs(got - dist) <= TOL * m, dict(sig, kind='distance_wrong'),
+                      lambda: 'translated copy of the line through %s, %s by %s: distance = %r, geometry gives %r' % (P1, Q1, t, got, dist))
+            par = (bool(L1 | L2), bool(L1.isparallel(L2)))
+            ctx.judge('pairs', all(par), dict(sig, kind='parallel_not_recognised'), lambda: 'translated copy of a line: | gives %r, isparallel %r (P=%s Q=%s t=%s)' % (par[0], par[1], P1, Q1, t))
         elif conf == 'parallel':
             dist = on_line(P2, P1, D1)
             got = float(L1.distance(L2))
@@ -229,6 +240,8 @@ def run_plane(ctx, p):
             m = mag(pt)
             r = abs(float(np.dot(pl.n, pt) + pl.d)) / np.linalg.norm(pl.n)
             ctx.judge('planes', r <= TOL * m, dict(sig, kind='defining_point_off_plane'), lambda: 'Plane.PN(%s, %s) = %s: n.p + d = %.3g' % (pt, n, pl.plane, r))
+            ctx.judge('planes', bool(pl.contains(pt)), dict(sig, kind='contains_rejects_defining_point'),
+                      lambda: 'Plane.PN(%s, %s).contains(pt) is False (distance %.3g, data magnitude %.3g)' % (pt, n, r, m))
             par = float(np.linalg.norm(np.cross(pl.n / np.linalg.norm(pl.n), n / np.linalg.norm(n))))
             ctx.judge('planes', par <= TOL, dict(sig, kind='normal_wrong'), lambda: 'Plane.PN normal %s not along %s' % (pl.n, n))
         elif which == 'P3':         # plane through three points contains them
@@ -238,6 +251,12 @@ def run_plane(ctx, p):
             for k in range(3):
                 r = abs(float(np.dot(pl.n, A3[:, k]) + pl.d)) / np.linalg.norm(pl.n)
                 ctx.judge('planes', r <= TOL * m, dict(sig, kind='defining_point_off_plane'), lambda: 'Plane.P3: point %s is %.3g from the plane %s' % (A3[:, k], r, pl.plane))
+                # the plane's own membership test: with the tolerance the statement names (1e-9 of the data magnitude) always, and
+                # as shipped (default tolerance, relative to the point's own magnitude) when the point is as large as the data
+                npt = max(1.0, float(np.linalg.norm(A3[:, k])))
+                inside = bool(pl.contains(A3[:, k], tol=1e-9 * m / npt)) and (npt < 0.5 * m or bool(pl.contains(A3[:, k])))
+                ctx.judge('planes', inside, dict(sig, kind='contains_rejects_defining_point'),
+                          lambda: 'Plane.P3(...).contains(%s) is False for a point the plane was built from (distance %.3g, data magnitude %.3g)' % (A3[:, k], r, m))
         elif which == 'Planes':     # line of intersection of two planes contains the planes' common points
             n1, n2, X = (np.asarray(p[k], dtype=np.float64) for k in ('n1', 'n2', 'X'))
             pl1, pl2 = sm.Plane.PN(X, n1), sm.Plane.PN(X, n2)
@@ -323,8 +342,10 @@ def run_pred(ctx, p):
             tol = 1e-9          # relative to the data magnitude (documented meaning of tol)
             arr = [bool(t) for t in L.contains(X, tol=tol)]
             each = [bool(L.contains(X[:, i].copy(), tol=tol)) for i in range(X.shape[1])]
-            got = (arr, each)
-            ok = arr == onoff and each == onoff
+            cols = [L.contains(X[:, i:i + 1].copy(), tol=tol) for i in range(X.shape[1])]     # a single point as a 3x1 column: one answer, not a list
+            colok = all(isinstance(c_, (bool, np.bool_)) for c_ in cols) and [bool(c_) for c_ in cols] == onoff
+            got = (arr, each, cols)
+            ok = arr == onoff and each == onoff and colok
             p = dict(p, want=onoff)
         elif which == 'plane_contains':
             pl = sm.Plane.PN(p['pt'], p['n'])
@@ -429,7 +450,7 @@ def run(ctx):
         if ctx.ncases % 499 == 1:
             ctx.sample(dict(case='line', **p), limit=4)
     for _ in range(ctx.scale(1200, 20000)):
-        conf = ['general', 'general', 'intersecting', 'parallel'][rng.integers(4)]
+        conf = ['general', 'general', 'intersecting', 'parallel', 'parallel_pts'][rng.integers(5)]
         P1, D1 = point(rng), direction(rng)
         if conf == 'general':
             P2, D2, extra = point(rng), direction(rng), {}
